@@ -329,11 +329,23 @@ CheckReturn(P, T, sm, s, ln) ==
                    : x \in sm.must}
        ELSE {})
 
+(* a save that was started and then cancelled by the engine when the run ended (the store was still busy) never
+   completed: if the node's value was consumed - it flowed into the returned result - the artifact is missing *)
+SaveCut(P, s) ==
+    IF s.ret = <<>> \/ s.ret[1] # "value" THEN {}
+    ELSE UNION {LET sv == LastIdx(s.log, LAMBDA x : IsSV(x) /\ x[2] = n)
+                    cut == \E j \in 1..Len(s.log) : j > sv /\ s.log[j][1] = "CUT" /\ s.log[j][2] = n /\ s.log[j][3] = "save"
+                    lv == IF sv > 0 THEN s.log[sv][3] ELSE <<"none">>
+                    used == s.ret[2] = lv \/ \E j \in 1..Len(s.log) : IsBS(s.log[j]) /\ \E i \in 1..Len(s.log[j][3]) : s.log[j][3][i][2] = lv
+                IN  IF sv > 0 /\ cut /\ used THEN {"C19.missing"} ELSE {}
+                : n \in {P.ids[i] : i \in 1..Len(P.ids)}}
+
 CheckPostRun(P, T, S, ln) ==
     (IF ~ln.stuck /\ (ln.live > 0 \/ ln.drain_steps > 50 + 20 * Len(P.ids)) THEN {"C13.drain"} ELSE {})
     \cup (IF "pool_left" \in DOMAIN ln /\ Len(ln.pool_left) > 0 /\ ~ln.stuck THEN {"C13.quiet"} ELSE {})
     \cup (IF ln.stuck THEN {"C02.stuck"} ELSE {})
     \cup (IF ln.truncated THEN {"C02.livelock"} ELSE {})
+    \cup (IF T.faulty THEN {} ELSE UNION {SaveCut(P, S[r]) : r \in DOMAIN S})
 
 CheckSnap(P, T, s, ln) ==
     (IF g.snap # <<>> /\ g.snap.graph # ln.graph THEN {"C07.graph"} ELSE {})
